@@ -188,6 +188,18 @@ def doReconOk (l : Line) : Option String := do
   let n ← l.nat? "n"; let r ← l.nat? "r"
   some s!"ok {if reconLenOk n r then 1 else 0}"
 
+/-- `dftrange n= cplx= hc=`: last-axis length of the range the constructor builds and of the
+array the transform produces -/
+def doDftRange (l : Line) : Option String := do
+  let n ← l.nat? "n"; let c ← l.bool? "cplx"; let hc ← l.bool? "hc"
+  if n = 0 then none
+  some s!"ok range={dftRangeLenCoded n hc} out={dftOutLen n c hc}"
+
+/-- `plan real= hc= fresh= destroys=`: does the data survive FFTW planning in `pyfftw_call` -/
+def doPlan (l : Line) : Option String := do
+  let r ← l.bool? "real"; let hc ← l.bool? "hc"; let f ← l.bool? "fresh"; let d ← l.bool? "destroys"
+  some s!"ok survives={if dataSurvivesPlanning r hc f d then 1 else 0}"
+
 def handle (l : Line) : Option String :=
   match l.op with
   | "recip" => doRecip l
@@ -195,6 +207,8 @@ def handle (l : Line) : Option String :=
   | "pre" => doPre l
   | "freqs" => doFreqs l
   | "dft" => doDft l
+  | "dftrange" => doDftRange l
+  | "plan" => doPlan l
   | "ft" => doFt l
   | "padmode" => doPad l
   | "ravel" => doRavel l
